@@ -51,6 +51,8 @@ pub enum ObsKind {
     // kademlia
     KadEvent { query: Option<usize>, kind: String, detail: String },
     KadStarted { query: usize, what: String },
+    /// blocks and presences the bitswap user was handed in one event: (cid bytes, data), (cid bytes, have)
+    BitswapResponse { peer: PeerId, blocks: Vec<(Vec<u8>, Vec<u8>)>, presences: Vec<(Vec<u8>, bool)> },
     // generic
     ApiResult { what: String, ok: bool, detail: String },
     NodeEnded,
@@ -483,8 +485,20 @@ async fn node_main(
         let (cfg, mut handle) = BsConfig::new();
         builder = builder.with_libp2p_bitswap(cfg);
         // every request is answered: a block for CIDs hashing b"vh", don't-have for the rest
+        let bs_log = log.clone();
         tokio::spawn(async move {
             while let Some(ev) = handle.next().await {
+                if let BitswapEvent::Response { peer, responses } = &ev {
+                    let mut blocks = Vec::new();
+                    let mut presences = Vec::new();
+                    for r in responses {
+                        match r {
+                            ResponseType::Block { cid, block } => blocks.push((cid.to_bytes(), block.clone())),
+                            ResponseType::Presence { cid, presence } => presences.push((cid.to_bytes(), matches!(presence, BlockPresenceType::Have))),
+                        }
+                    }
+                    push(&bs_log, index, ObsKind::BitswapResponse { peer: *peer, blocks, presences });
+                }
                 if let BitswapEvent::Request { peer, cids } = ev {
                     let have = crate::props::c20_cid(b"vh");
                     let responses = cids
